@@ -432,37 +432,85 @@ func (c *Ctx) tarIndexNeedsTar() {
 	var goIns ssa.Instruction
 	viaPipe := false
 	tarCalls := 0
-	for _, g := range withClosures(fn) {
-		instrsAll(g, func(_ *ssa.BasicBlock, _ int, ins ssa.Instruction) {
-			if _, isGo := ins.(*ssa.Go); isGo && ins.Parent() == fn && goIns == nil {
-				goIns = ins
-			}
-			switch x := ins.(type) {
-			case *ssa.Store:
-				if hasOrigin(x.Val, func(o string) bool { return o == "call:desync.Tar#0" }) {
-					for _, l := range leaves(x.Addr) {
-						if a, ok := l.(*ssa.Alloc); ok && a.Parent() == fn {
-							cell = a
-						}
+	// the function that starts the Tar goroutine: runTar itself, or a new helper the -i path
+	// was moved into; the goroutine: a closure, or a helper that is handed a pointer to the
+	// variable that takes the error
+	host := fn
+	for _, f := range fnsDeep(fn) {
+		for _, b := range f.Blocks {
+			for _, ins := range b.Instrs {
+				g, isGo := ins.(*ssa.Go)
+				if !isGo {
+					continue
+				}
+				var body *ssa.Function
+				if mc, ok := g.Call.Value.(*ssa.MakeClosure); ok {
+					body, _ = mc.Fn.(*ssa.Function)
+				} else if sf := g.Call.StaticCallee(); sf != nil {
+					body = sf
+				}
+				if body == nil || body.Blocks == nil {
+					continue
+				}
+				callsTar := false
+				instrsAll(body, func(_ *ssa.BasicBlock, _ int, in2 ssa.Instruction) {
+					if cl, ok := in2.(*ssa.Call); ok && callee(cl) == "desync.Tar" {
+						callsTar = true
 					}
-					if fv, ok := x.Addr.(*ssa.FreeVar); ok {
-						for _, cv := range captured(fv) {
-							if a, ok := cv.(*ssa.Alloc); ok && a.Parent() == fn {
-								cell = a
+				})
+				if !callsTar {
+					continue
+				}
+				host, goIns = f, ins
+				instrsAll(body, func(_ *ssa.BasicBlock, _ int, in2 ssa.Instruction) {
+					switch x := in2.(type) {
+					case *ssa.Store:
+						if !hasOrigin(x.Val, func(o string) bool { return o == "call:desync.Tar#0" }) {
+							return
+						}
+						switch a := x.Addr.(type) {
+						case *ssa.FreeVar:
+							for _, cv := range captured(a) {
+								if al, ok := cv.(*ssa.Alloc); ok && al.Parent() == f {
+									cell = al
+								}
+							}
+						case *ssa.Parameter:
+							for k, p := range body.Params {
+								if p == a && k < len(g.Call.Args) {
+									if al, ok := g.Call.Args[k].(*ssa.Alloc); ok && al.Parent() == f {
+										cell = al
+									}
+								}
 							}
 						}
+					case *ssa.Call:
+						if callee(x) == "desync.Tar" {
+							tarCalls++
+						}
+						if strings.HasSuffix(callee(x), "io.PipeWriter).CloseWithError") && len(x.Call.Args) > 1 && hasOrigin(x.Call.Args[1], func(o string) bool { return o == "call:desync.Tar#0" }) {
+							viaPipe = true
+						}
 					}
-				}
-			case *ssa.Call:
-				if callee(x) == "desync.Tar" {
-					tarCalls++
-				}
-				if strings.HasSuffix(callee(x), "io.PipeWriter).CloseWithError") && len(x.Call.Args) > 1 && hasOrigin(x.Call.Args[1], func(o string) bool { return o == "call:desync.Tar#0" }) {
-					viaPipe = true
-				}
+				})
+			}
+		}
+	}
+	if goIns == nil {
+		// Tar is not run in a goroutine of this command (plain catar output): nothing to decide
+		instrsAll(fn, func(_ *ssa.BasicBlock, _ int, ins ssa.Instruction) {
+			if cl, ok := ins.(*ssa.Call); ok && callee(cl) == "desync.Tar" {
+				tarCalls++
 			}
 		})
+		if tarCalls > 0 && len(calls(fn, named("desync.ChunkStream"))) > 0 {
+			c.bad("cmd.runTar:tarErr", fn.Pos(), "desync.Tar and ChunkStream are used together but no goroutine runs Tar: the shape of tar -i is not recognisable")
+		} else {
+			c.info("cmd.runTar:tarErr", fn.Pos(), "no goroutine runs desync.Tar")
+		}
+		return
 	}
+	fn = host
 	if tarCalls == 0 {
 		c.info("cmd.runTar:tarErr", fn.Pos(), "runTar does not call desync.Tar")
 		return
